@@ -1,6 +1,6 @@
 (* C20 proofs, part 10: model_meets_spec at the level of the extracted entry points: for every case line
    that parses, run_spec applied to run_model's observation reports no failed clause. *)
-From V Require Import C20.Glue C20.ProofsPtrBase C20.ProofsPtrOps C20.ProofsPtr C20.ProofsPtrSpec C20.ProofsSV C20.ProofsSVSpec C20.ProofsVar.
+From V Require Import C20.Glue C20.ProofsPtrBase C20.ProofsPtrOps C20.ProofsPtr C20.ProofsPtrSpec C20.ProofsSV C20.ProofsSVSpec C20.ProofsVar C20.ProofsChain.
 From Coq Require Import Lia Arith PeanoNat.
 Require Import ZifyBool ZifyNat ZifyN.
 
@@ -51,15 +51,33 @@ Proof.
   pose proof (nosemi_vstep st op) as P. destruct (vstep st op) as [st' res]. constructor; [|apply IH].
   unfold vobs. apply nosep_app; [exact P|]. apply nosep_app; [reflexivity|]. apply nosep_flat_vval. apply nosemi_vval.
 Qed.
+Lemma nosemi_fcall st t a b : nosep ";" (snd (fcall_via st t a b)).
+Proof.
+  unfold fcall_via. destruct t as [k|]; [|reflexivity]. destruct (fcallable k); [|reflexivity].
+  destruct (fapply st k a b); reflexivity.
+Qed.
 Lemma nosemi_frun ops : forall st, Forall (nosep ";") (frun st ops).
 Proof.
   induction ops as [|op ops IH]; intros st; cbn [frun]; [constructor|].
   assert (P : nosep ";" (snd (fexec st op))).
-  { destruct op; cbn [fexec]; try (destruct (Nat.ltb k 5); reflexivity);
-      destruct (f_bound st) as [k|]; try reflexivity; try (destruct (fcallable k); try reflexivity);
-      destruct (fapply st k a b); reflexivity. }
+  { destruct op; cbn [fexec]; try apply nosemi_fcall; try reflexivity.
+    - destruct (Nat.ltb k 5); reflexivity.
+    - unfold fbool_via. destruct (f_bound st); reflexivity.
+    - destruct (f_bound st); [destruct (Nat.ltb m 3)|]; reflexivity.
+    - unfold fbool_via. destruct (f_copy st); reflexivity. }
   destruct (fexec st op) as [st' res]. constructor; [|apply IH].
   unfold fobs. apply nosep_app; [exact P|reflexivity].
+Qed.
+Lemma nosemi_crun sh ops : forall st, Forall (nosep ";") (crun sh st ops).
+Proof.
+  assert (O : forall st st' res, nosep ";" res -> nosep ";" (cobs st st' res)).
+  { intros st st' res R. unfold cobs. apply nosep_app; [exact R|]. apply nosep_app; [reflexivity|].
+    apply nosep_app; [apply nosemi_num, tnat_num|]. apply nosep_app; [reflexivity|].
+    apply nosep_app; [apply nosemi_num, tnat_num|]. apply nosep_app; [reflexivity|apply nosemi_num, tnat_num]. }
+  induction ops as [|op ops IH]; intros st; cbn [crun].
+  - constructor; [apply O; reflexivity|constructor].
+  - assert (P : nosep ";" (snd (cstep sh st op))) by (unfold cstep; destruct (cvalid sh st op); reflexivity).
+    destruct (cstep sh st op) as [st' res]. constructor; [apply O; exact P|apply IH].
 Qed.
 
 Lemma Forall_snoc {A} (P : A -> Prop) l x : Forall P l -> P x -> Forall P (l ++ [x]).
@@ -78,7 +96,7 @@ Definition wf_case (c : case) : Prop :=
 
 Theorem model_meets_spec_all : forall l c, parse_case l = Some c -> wf_case c -> run_spec l (run_model l) = [].
 Proof.
-  intros l c P Wc. unfold run_spec, run_model. rewrite P. destruct c as [s|s|ops|ops|ops|k].
+  intros l c P Wc. unfold run_spec, run_model. rewrite P. destruct c as [s|s|ops|ops|ops|sh ops|k].
   - now apply model_meets_spec_sv.
   - now apply model_meets_spec_sp.
   - rewrite split_join; [apply model_meets_spec_pt|destruct (prun pinit ops); discriminate|].
@@ -87,6 +105,8 @@ Proof.
     apply Forall_snoc; [apply nosemi_vrun|reflexivity].
   - rewrite split_join; [apply model_meets_spec_fr|destruct (frun finit ops); discriminate|].
     apply Forall_snoc; [apply nosemi_frun|reflexivity].
+  - rewrite split_join; [apply model_meets_spec_ch|destruct (crun sh cinit ops); discriminate|].
+    apply Forall_snoc; [apply nosemi_crun|reflexivity].
   - cbn [wf_case] in Wc. destruct (nth_error conv_table k) as [[alts arg]|] eqn:E; [|contradiction].
     eapply variant_conv_partial; eauto.
 Qed.
